@@ -43,6 +43,7 @@ package jws
 //@   ensures err == nil && isType(v, "*jws.Headers") ==> deref(unbox(v, "*jws.Headers")) == hdrJSONOf(data)
 //@   ensures err == nil && isType(v, "*jws.Headers") ==> (forall k string :: (k in deref(unbox(v, "*jws.Headers"))) == hdrHas(data, k) && (hdrHas(data, k) ==> deref(unbox(v, "*jws.Headers"))[k] == hdrVal(data, k)))
 //@   ensures err == nil && isType(v, "*jsonWebKey") ==> unbox(v, "*jsonWebKey").Kty == jwkKtyOf(data) && unbox(v, "*jsonWebKey").Crv == jwkCrvOf(data) && (unbox(v, "*jsonWebKey").X == nil) == (jwkXLen(data) < 0) && (unbox(v, "*jsonWebKey").X != nil ==> len(unbox(v, "*jsonWebKey").X.data) == jwkXLen(data))
+//@   modifies pointees
 //@ func checkJWSHeaders
 //@   ensures (result == nil) == ("alg" in headers)
 //@ func parseCompactedHeaders
